@@ -237,6 +237,12 @@ const (
 	ClassSmooth   = "smooth"
 	ClassSimilar  = "similar" // CCITTFax: rows which differ little from the row above
 	ClassPage     = "page"    // CCITTFax: a fax-page-sized image (GenPage), see below
+	// ClassNoise2 is two-symbol noise: incompressible in the sense that LZW
+	// creates a table entry with every code, but the phrases grow, so that
+	// the code count grows more slowly than the length.  Not drawn by
+	// GenData; used by enumerators.  Like ClassRandom it is prefix-stable:
+	// Expand(.., n, seed) is a prefix of Expand(.., m, seed) for n < m.
+	ClassNoise2 = "noise2"
 )
 
 // Data is the input of a case.  Bytes holds the expanded data if it is small
@@ -400,6 +406,12 @@ func Expand(s Spec, class string, n int, seed uint64) []byte {
 		for i := range out {
 			x, y := i%rb, i/rb
 			out[i] = byte(x*a/2 + y*b + r.Intn(noise))
+		}
+		return out
+	case ClassNoise2:
+		out := r.Bytes(size)
+		for i := range out {
+			out[i] = 'a' + out[i]&1
 		}
 		return out
 	case ClassBoundary:
